@@ -97,28 +97,36 @@ Definition parse_enum (d : dict) (p : pointer) (st : jbst) : res (jbst * nat) :=
   let invalid' := if pmem filler invalid then invalid else invalid ++ [filler] in
   Ok (fold_left (fun st v => let '(st, l) := jleaf false v st in jadd root l st) invalid' st, root).
 
-(* parse_number *)
+(* parse_number: the values it emits, as a pure function of the keywords read
+   (mn/mx are the inclusive bounds after exclusiveMinimum + 1 / exclusiveMaximum - 1) *)
+Definition number_bounds (mn emn mx emx : option Z) : option Z * option Z :=
+  (match emn with Some e => Some (e + 1)%Z | None => mn end,
+   match emx with Some e => Some (e - 1)%Z | None => mx end).
+Definition number_valid_value (mn mx mo : option Z) : Z :=
+  let truthy (o : option Z) := match o with Some z => negb (Z.eqb z 0) | None => false end in
+  let v0 := if truthy mn then match mn with Some z => z | None => 0%Z end
+            else if truthy mx then match mx with Some z => z | None => 0%Z end else 0%Z in
+  match mo with
+  | Some m => if Z.eqb m 0 then v0 else
+      let q := (Z.div v0 m * m)%Z in        (* math.floor(v / m) (the pinned code truncated toward zero: Z.quot) *)
+      match mn with Some lo => if Z.ltb q lo then (q + m)%Z else q | None => q end
+  | None => v0
+  end.
+Definition number_invalid_values (mn mx : option Z) : list Z :=
+  (match mn with Some m => [(m - 1)%Z] | None => [] end) ++
+  (match mx with Some m => [(m + 1)%Z] | None => [] end).
+
 Definition parse_number (d : dict) (p : pointer) (st : jbst) : res (jbst * nat) :=
   do mn <- read_num d "minimum"; do emn <- read_num d "exclusiveMinimum";
   do mx <- read_num d "maximum"; do emx <- read_num d "exclusiveMaximum";
   do mo <- read_num d "multipleOf";
-  let mn := match emn with Some e => Some (e + 1)%Z | None => mn end in
-  let mx := match emx with Some e => Some (e - 1)%Z | None => mx end in
-  let invalid := (match mn with Some m => [JNum (m - 1)] | None => [] end) ++
-                 (match mx with Some m => [JNum (m + 1)] | None => [] end) in
-  let truthy (o : option Z) := match o with Some z => negb (Z.eqb z 0) | None => false end in
-  let v0 := if truthy mn then match mn with Some z => z | None => 0%Z end
-            else if truthy mx then match mx with Some z => z | None => 0%Z end else 0%Z in
-  let v := match mo with
-           | Some m => if Z.eqb m 0 then v0 else
-               let q := (Z.div v0 m * m)%Z in        (* math.floor(v / m) (the pinned code truncated toward zero: Z.quot) *)
-               match mn with Some lo => if Z.ltb q lo then (q + m)%Z else q | None => q end
-           | None => v0
-           end in
+  let '(mn, mx) := number_bounds mn emn mx emx in
+  let v := number_valid_value mn mx mo in
   let '(st, root) := jnoop false (sfx p "_NUMBER") st in
   let '(st, l) := jleaf true (JNum v) st in
   let st := jadd root l st in
-  Ok (fold_left (fun st x => let '(st, l) := jleaf false x st in jadd root l st) invalid st, root).
+  Ok (fold_left (fun st x => let '(st, l) := jleaf false (JNum x) st in jadd root l st)
+                (number_invalid_values mn mx) st, root).
 
 (* parse_string (no pattern, formats outside the model) *)
 Definition parse_string (d : dict) (p : pointer) (st : jbst) : res (jbst * nat) :=
